@@ -1,5 +1,5 @@
 """C17 — emu-mps quantum-jump trajectories: noise plumbing (structural clauses)."""
-from ..rules import drivers, observables, adapter, jump, noise, step, tdvp, mpoham
+from ..rules import drivers, observables, adapter, jump, noise, step, tdvp, mpoham, kernels
 
 META = {
     "title": "emu-mps quantum-jump trajectories reproduce Lindblad dynamics on average",
@@ -31,3 +31,4 @@ def check(ctx):
     drivers.normalised_copies(ctx)
     drivers.jump_gap(ctx)
     mpoham.local_term(ctx)
+    kernels.mps_apply_operator(ctx)
